@@ -26,7 +26,7 @@ from core.report import Result
 from core.types import members
 
 from . import c13_sym as S
-from .c13_sym import Coll, Const, Opq, Phi, Ref, exception_bases, exception_class_name, implies, is_assertion_error, key, sat
+from .c13_sym import Coll, Const, Opq, Phi, Ref, exception_bases, exception_class_name, implies, implies_path, is_assertion_error, key, sat, sat_path
 from .common import callees_of, conds, dotted, reachable_funcs, types_of, where
 
 PKG = "pytestarch"
@@ -126,8 +126,16 @@ def describe_outcome(o: S.Outcome) -> str:
     return f"`{norm(o.node, 60)}` in {o.ctx.qualname}"
 
 
+def must(path, ev_path) -> bool:
+    """Every run that takes `path` has taken `ev_path` (the event happened on it)."""
+    ev_path = tuple(ev_path)
+    if tuple(path[: len(ev_path)]) == ev_path:
+        return True
+    return implies_path(path, S.conj(ev_path))
+
+
 def consistent(o: S.Outcome, want: Formula) -> bool:
-    return sat(f_and([o.cond, want]))
+    return sat_path(o.path, want)
 
 
 def final_writes(sym: S.Sym, prefix: str = "self.") -> dict[str, S.Val]:
@@ -243,7 +251,7 @@ def rewritten_under(sym: S.Sym, o: S.Outcome, want: Formula, keys: list[str]) ->
         v = current_value(sym, o.store or {}, k)
         alts = v.alts if isinstance(v, Phi) else ((TRUE, v),)
         for c, a in alts:
-            if not (isinstance(a, Opq) and a.key == k) and sat(f_and([c, o.cond, want])):
+            if not (isinstance(a, Opq) and a.key == k) and sat_path(o.path, f_and([c, want])):
                 return k
     return None
 
@@ -289,7 +297,7 @@ def run_rule_pipeline(ctx: Ctx, res: Result, roles: dict[str, str] | None) -> No
         o = hits[0]
         k = rewritten_under(sym, o, want, keys)
         others = f_and([f_not(w2) for _r, l2, w2, _k in wants if l2 != label])
-        rejected_somewhere = any((atoms_of(want) & atoms_of(r.cond)) and (sat(f_and([r.cond, want, others])) or sat(f_and([r.cond, want])) and rid != "C13.R7") for r in rej)
+        rejected_somewhere = any((atoms_of(want) & atoms_of(r.cond)) and (sat_path(r.path, f_and([want, others])) or sat_path(r.path, want) and rid != "C13.R7") for r in rej)
         if k is not None:
             rule_id = "C13.R1"
             detail = f"`{k.split('.')[-1]}` is rewritten before the check that must see the caller's value: with {label} (`{show(want)}`) {describe_outcome(o)} is reached - the invalid specification is evaluated instead of rejected"
@@ -314,10 +322,13 @@ def run_behavior_class(ctx: Ctx, res: Result, pipeline: S.Sym, roles: dict[str, 
             continue
         ci = repo.classes.get(ev.name)
         init = repo.lookup_method(ci, "__init__") if ci else None
-        if init is None:
+        post = repo.lookup_method(ci, "__post_init__") if ci else None
+        if init is None and post is None:
             continue
         call = ev.node
-        params = init.param_names[1:]
+        if not isinstance(call, ast.Call):
+            continue
+        params = init.param_names[1:] if init is not None else [a for c in reversed(repo.mro(ci)) for a in c.ann_attrs]
         bound: dict[str, str] = {}
         for i, a in enumerate(ev.args[: len(call.args)]):
             if i < len(params) and isinstance(a, (Opq, Phi)):
@@ -334,6 +345,10 @@ def run_behavior_class(ctx: Ctx, res: Result, pipeline: S.Sym, roles: dict[str, 
     if target is None:
         return True  # no separate requirement class: the pipeline obligation alone decides
     ci, init, bound = target
+    if init is None:
+        init = repo.lookup_method(ci, "__post_init__")
+        self_name = init.param_names[0]
+        bound = {k: f"{self_name}.{v}" for k, v in bound.items()}  # dataclass: the constructor arguments are the fields
     sym = ctx.run(init, stop=None)
     p = lambda v: atom(f"bool({bound[v]})")  # noqa: E731
     want = f_and([p("should_not"), f_or([p("should"), p("should_only")])])
@@ -457,10 +472,10 @@ def run_layer_rule(ctx: Ctx, res: Result) -> None:
             detail = f"the KeyError of `{norm(ev.node, 50)}` for an undefined layer is caught and are_named() carries on"
             continue
         if idx.kind == "param":
-            good = all(implies(o.cond, ev.cond) for o in rets)
+            good = all(must(o.path, ev.path) for o in rets)
         else:
             loops = [lc for lc in ev.loops if lc.elem is not None and lc.elem.key == idx.key.split("[")[0] or (lc.elem is not None and idx.key.startswith(lc.elem.key))]
-            good = bool(loops) and loops[0].elem.meta and loops[0].elem.meta[0] == p and all(implies(o.cond, S.conj(loops[0].pre_path)) for o in rets) and implies(f_and([S.conj(loops[0].pre_path), loops[0].iter_atom]), ev.cond)
+            good = bool(loops) and loops[0].elem.meta and loops[0].elem.meta[0] == p and all(must(o.path, loops[0].pre_path) for o in rets) and must(tuple(loops[0].pre_path) + (loops[0].iter_atom,), ev.path)
         if good:
             ok, detail = True, f"each requested layer name is looked up with `{norm(ev.node, 50)}` (KeyError for an undefined layer) on every path"
             break
@@ -499,7 +514,7 @@ def run_diagram_rule(ctx: Ctx, res: Result) -> None:
     want = initial_formula(ctx, dr, k_file) or atom(f"{k_file} is None")
     hits = [o for o in bad if consistent(o, want)]
     # reading the diagram without a path is no configuration error either: the check has to come before the file is opened
-    opened = [ev for ev in sym.events if ev.kind == "call" and ev.name == "open" and sat(f_and([ev.cond, want]))]
+    opened = [ev for ev in sym.events if ev.kind == "call" and ev.name == "open" and sat_path(ev.path, want)]
     ok = not hits and not opened
     if ok:
         detail = "a diagram rule without a file raises before the diagram is read or evaluated"
@@ -522,20 +537,20 @@ def run_diagram_rule(ctx: Ctx, res: Result) -> None:
         both = START_TAG in texts and END_TAG in texts
         if r.kind == "index":
             caught = swallowed(sym, ev, {"ValueError", "Exception", "BaseException", "<bare>"}, bad)
-            if not caught and all(implies(o.cond, ev.cond) for o in bad) and both:
+            if not caught and all(must(o.path, ev.path) for o in bad) and both:
                 ok, detail = True, f"`{norm(ev.node, 50)}` raises for a text without the tags on every path to the evaluation"
                 break
             continue
         nf = atom(f"{r.key} is None") if r.kind == "search" else atom(f"notfound({r.key})")
         escaping = [o for o in bad if consistent(o, nf)]
-        rejected = any(sat(f_and([x.cond, nf])) for x in rejections(sym))
+        rejected = any(sat_path(x.path, nf) for x in rejections(sym))
         if not escaping and rejected and both:
-            ok, detail = True, f"a diagram without {START_TAG} / {END_TAG} (`{norm(ev.node, 50)}` finds nothing) raises {', '.join(sorted({x.exc.split('.')[-1] for x in rejections(sym) if sat(f_and([x.cond, nf]))}))}"
+            ok, detail = True, f"a diagram without {START_TAG} / {END_TAG} (`{norm(ev.node, 50)}` finds nothing) raises {', '.join(sorted({x.exc.split('.')[-1] for x in rejections(sym) if sat_path(x.path, nf)}))}"
             break
         if escaping and not detail:
             o = escaping[0]
             loc = f"{ev.ctx.relpath}:{getattr(ev.node, 'lineno', 0)}"
-            if implies(o.cond, ev.cond):
+            if must(o.path, ev.path):
                 detail = f"when `{norm(ev.node, 50)}` finds no tags, {describe_outcome(o)} is still reached: a diagram without start/end tags no longer raises a parsing error"
             else:
                 detail = f"{describe_outcome(o)} is reachable on a path on which the tag search `{norm(ev.node, 50)}` does not run in this call (`{show(ev.cond)[:100]}` does not hold): nothing rejects a diagram without start/end tags there"
@@ -584,7 +599,7 @@ def run_entry_point(ctx: Ctx, res: Result) -> None:
         if swallowed(sym, ev, {"ValueError", "Exception", "BaseException", "<bare>"}, rets):
             detail = f"the ValueError of `{norm(ev.node, 50)}` is caught and the scan goes ahead: a module_path outside root_path is tolerated"
             continue
-        esc = [o for o in rets if not implies(o.cond, ev.cond)]
+        esc = [o for o in rets if not must(o.path, ev.path)]
         if not esc:
             ok, detail = True, f"`{norm(ev.node, 50)}` (ValueError for a module_path outside root_path) is evaluated on every path to the scan"
             break
@@ -676,7 +691,7 @@ def run_lookups(ctx: Ctx, res: Result) -> None:
             ok, detail, loc = False, "", where(fi, fi.node)
             if k == "scalar":
                 direct = [ev for ev in live if not ev.loops]
-                failing = [o for o in rets if not any(implies(o.cond, ev.cond) for ev in direct)]
+                failing = [o for o in rets if not any(must(o.path, ev.path) for ev in direct)]
                 ok = not failing
                 if ok:
                     detail = f"`{p}` reaches networkx' raising {direct[0].name}() on every path before the function returns"
@@ -693,8 +708,7 @@ def run_lookups(ctx: Ctx, res: Result) -> None:
                     if lc.elem is None or not lc.elem.meta or lc.elem.meta[0] != p:
                         continue
                     skip = f_or([atom("{} == {}".format(*sorted([lc.elem.key, q]))) for q in scalars])
-                    pre = S.conj(lc.pre_path)
-                    if all(not o.loops and implies(o.cond, pre) for o in rets) and implies(f_and([pre, lc.iter_atom, f_not(skip)]), ev.cond):
+                    if all(not o.loops and must(o.path, lc.pre_path) for o in rets) and must(tuple(lc.pre_path) + (lc.iter_atom, f_not(skip)), ev.path):
                         good = ev
                         break
                 ok = good is not None
